@@ -309,6 +309,7 @@ class Run:
         self.sx = Symex(ctx.model, inline=lambda q: True, what=what, attr_hook=self.attr_hook, max_paths=64, hooks={
             "Expr": self.h_expr, "KroneckerDelta": self.h_delta, "Pow": self.h_pow, "evaluate_deltas": self.h_evd,
             "sort_idx_canonical": self.h_sortkey, "get_symbols": self.h_get_symbols})
+        self.sx.strict_names = True   # an undefined name is a NameError of the library, not an external value
 
     # hooks ------------------------------------------------------------------
     def h_expr(self, sx, args, kw):
